@@ -79,7 +79,7 @@ include hag
 theorem closeBlocksT_mid {s s' : St} (pre mid new : List Block) (hop : s.pc.opened = pre ++ mid ++ new)
     (h : CInvG False src s s.pc.opened) (hsrc : s.r.source = src)
     (hcont : ∀ b ∈ mid.reverse.tail, b.bp.isContainer = true)
-    (hG : ∀ g ∈ pre ++ new, PS g → Guard s mid.reverse g)
+    (hG : ∀ g ∈ pre ++ new, PSb g → Guard s mid.reverse g)
     (e : closeBlocksT pts ((pre.length : Int) + (mid.length : Int) - 1) (pre.length : Int) s = .ok ((), s')) :
     CInvG False src s' s'.pc.opened ∧ s'.pc.opened = pre ++ new ∧ s'.r = s.r := by
   cases hm : mid with
@@ -187,7 +187,7 @@ theorem lineTailT_clG {root : Nat} (Lb : Int) (pre : List Block) (be : Block) (r
     -- the guards of the new leaf
     have hincr : (root :: (pre ++ be :: rest).map (·.node)).Pairwise (· < ·) := by
       have := hst.ls.incr; rw [hop, hob] at this; exact this
-    have hguard : ∀ (mid : List Block), (∀ L ∈ mid, L ∈ be :: rest) → ∀ g ∈ pre ++ new1, PS g →
+    have hguard : ∀ (mid : List Block), (∀ L ∈ mid, L ∈ be :: rest) → ∀ g ∈ pre ++ new1, PSb g →
         g ∈ s1.pc.opened → Guard s1 mid.reverse g := by
       intro mid hmid g hg hps hgo
       rcases List.mem_append.1 hg with hg | hg
